@@ -150,6 +150,9 @@ func withCmp[K any](start int, cmp func(a, b K) int, mk func(int) K, unmk func(K
 
 var opNames = []string{"Set", "SetNx", "SetX", "Remove", "Get", "GetNode", "Len", "Head", "Clear", "Range", "RangeWithStart", "RangeWithRange", "Keys", "Values", "All"}
 
+// (further operation, placed by scenarios only: "Age" repeats a cheap mutation D times - Clear,
+// or Set and Remove of one key - the way a long-lived instance accumulates them)
+
 func gen(r *sim.Rng, tier string) *sim.Case {
 	c := &sim.Case{Params: map[string]int{}}
 	kind := r.N(11)
@@ -253,6 +256,28 @@ func gen(r *sim.Rng, tier string) *sim.Case {
 			op.D = r.Pick(3, 1, 1, 1)
 		}
 		c.Ops = append(c.Ops, op)
+	}
+	if r.N(1000) < 12 {
+		// an instance with a long life behind it: a key is looked up and removed, then hundreds
+		// or tens of thousands of cheap mutations follow (counts around 2^8 and 2^16: whatever an
+		// implementation counts in a narrow field comes round), then the key is looked up again
+		k := wk[r.N(len(wk))]
+		k2 := wk[r.N(len(wk))]
+		n := []int{255, 256, 65535, 65536}[r.N(4)] - r.N(3)
+		how := []string{"clear", "setremove"}[r.N(2)]
+		life := []sim.Op{
+			{Op: "Set", K: k, V: 7001},
+			{Op: []string{"Get", "GetNode"}[r.N(2)], K: k},
+			{Op: "Remove", K: k},
+			{Op: "Age", K: k2, D: n, S: how},
+			{Op: "Get", K: k},
+			{Op: "GetNode", K: k},
+			{Op: "Len"},
+			{Op: "Keys"},
+		}
+		at := r.N(len(c.Ops) + 1)
+		c.Ops = append(c.Ops[:at:at], append(life, c.Ops[at:]...)...)
+		c.Params["aged"] = 1
 	}
 	c.EnvSeed = r.U64() >> 12
 	return c
@@ -432,6 +457,21 @@ func execTyped[K any](c *sim.Case, ad *adapter[K], out *sim.WorkerOut, dg *engc.
 			case "Clear":
 				ad.l.Clear()
 				md.m = map[int]int{}
+				mutating = true
+			case "Age":
+				for i := 0; i < op.D; i++ {
+					if op.S == "clear" {
+						ad.l.Clear()
+					} else {
+						ad.l.Set(ad.mk(op.K), i)
+						ad.l.Remove(ad.mk(op.K))
+					}
+				}
+				if op.S == "clear" {
+					md.m = map[int]int{}
+				} else {
+					delete(md.m, op.K)
+				}
 				mutating = true
 			case "Range", "All", "RangeWithStart", "RangeWithRange", "Keys", "Values":
 				v = enumCheck(ad, md, op, idx)
@@ -803,6 +843,9 @@ func exec(c *sim.Case, out *sim.WorkerOut) (*sim.Violation, bool) {
 	out.Faults["tower_word_drawn"] += smrand.Words
 	if c.P("dist") != 0 {
 		out.Faults["adversarial_tower_distribution"]++
+	}
+	if c.P("aged") == 1 {
+		out.Probes["instance_aged_by_2^8_or_2^16_cheap_mutations_between_two_lookups"]++
 	}
 	if start == 2 {
 		out.Faults["zero_value_start"]++
